@@ -129,6 +129,7 @@ class Run:
     self.switches = []                # (from, to, file, line)
     self.stuck = False
     self.point_locs = {}              # (file, line) -> count of preemptions landing there
+    self.trace = None                 # set to [] to record (thread, file, line) per yield point
 
   # -- called inside worker threads --------------------------------------------------
   def _wait_for_token(self, me):
@@ -147,6 +148,8 @@ class Run:
       return
     with self.cond:
       self.points[me] += 1
+      if self.trace is not None:
+        self.trace.append((me, file, line))
       nxt = self.strategy.at_yield(me, self.alive)
       if nxt != me and nxt in self.alive:
         self.switches.append((me, nxt, file, line, self.points[me]))
